@@ -588,6 +588,9 @@ pub enum ChunkPlan {
     NearBuf(Vec<i8>),
     /// cut after byte i+1 iff bit i is set (exhaustive compositions of short streams)
     Mask(u32),
+    /// cuts every `every` bytes AND at the packet boundaries shifted by the deltas: a long packet
+    /// arrives in many reads and its last read carries 0, 1, 2.. bytes of the next packet
+    Mixed { deltas: Vec<i8>, every: u32 },
 }
 
 impl ChunkPlan {
@@ -612,6 +615,22 @@ impl ChunkPlan {
                         .map(|(i, b)| (*b as i64 + ds[i % ds.len()] as i64).max(0) as u32)
                         .collect(),
                 )
+            }
+            ChunkPlan::Mixed { deltas, every } => {
+                let mut cuts: Vec<u32> = vec![];
+                let e = (*every).max(1) as usize;
+                let mut k = e;
+                while k < len {
+                    cuts.push(k as u32);
+                    k += e;
+                }
+                for (i, b) in bounds.iter().enumerate() {
+                    let d = if deltas.is_empty() { 0 } else { deltas[i % deltas.len()] };
+                    cuts.push((*b as i64 + d as i64).max(0) as u32);
+                }
+                cuts.sort();
+                cuts.dedup();
+                Chunking::Cuts(cuts)
             }
             ChunkPlan::Mask(m) => Chunking::Cuts(
                 (0..32u32)
